@@ -13,7 +13,9 @@ RULE = ("every shipped compartmented model (SIR, SIS, SIRS, SEIR, both fixed-rec
         "with the Lean model; beside it the diagram oracle checks on the real run: partition, every change is an arrow, infection only through a "
         "current edge to a currently infectious neighbour, infection rate = pInfect x #S-I edges, exact recovery delay of the fixed-recovery "
         "variants, results = true counts, clean halting. non-trivial = run with >= 3 events; distinct = distinct spec")
-PARTIAL = ["vaccine clauses (SIvR efficacy 1 / 0, Vaccinate) are not modelled yet: not covered",
+PARTIAL = ["SIvR / Vaccinate: their handlers are modelled and replayed (with named instances) and the vaccine clauses are theorems about the SIvR action "
+           "(vaccine_holds, vaccine_void, unvaccinated_as_sir); the partition / arrow theorems (handler_partition, event_arrow) are stated for the "
+           "action scripts of the other shipped models and do not quantify over the SIvR action",
            "named instances inside sequences are exercised under C11"]
 
 generated_lean = c01.generated_lean
@@ -22,7 +24,7 @@ generated_lean = c01.generated_lean
 def _jobs(ctx):
     q = ctx.quick()
     n = 40 if q else 500
-    return sc.corpus_job(ctx) + [(f'models{k}', ['models', n]) for k in range(8 if q else 14)] + [(f'forced{k}', ['forced', n]) for k in range(3 if q else 6)]
+    return sc.corpus_job(ctx) + [(f'models{k}', ['models', n]) for k in range(8 if q else 14)] + [(f'forced{k}', ['forced', n]) for k in range(3 if q else 6)] + [(f'vacc{k}', ['vacc', n]) for k in range(2 if q else 4)]
 
 
 def tie(ctx):
@@ -32,7 +34,7 @@ def tie(ctx):
 
 
 def search(ctx, hint):
-    return sc.search_with(ctx, hint, [(f's{k}', ['models', 200]) for k in range(6)] + [(f'f{k}', ['forced', 200]) for k in range(3)])
+    return sc.search_with(ctx, hint, [(f's{k}', ['models', 200]) for k in range(6)] + [(f'f{k}', ['forced', 200]) for k in range(3)] + [('v', ['vacc', 300])])
 
 
 def replay(ctx, rep):
